@@ -1,2 +1,7 @@
 pub mod base;
 pub mod c03;
+pub mod c06;
+pub mod c07;
+pub mod c08;
+pub mod c09;
+pub mod c10;
